@@ -29,10 +29,10 @@ def reset():
     Rectangle._area_epsilon = AEPS
 
 
-REGIONS = ['Ground', 'dsp']
+REGIONS = ['_', 'dsp']
 
 
-def mkrect(I, tag, region='Ground', fixed=False, hard=False, y=None):
+def mkrect(I, tag, region='_', fixed=False, hard=False, y=None):
     cx = I.real(tag + 'x', -1000, 1000)
     w = I.real(tag + 'w', 0, 1000)
     I.assume(w > 0)
